@@ -65,7 +65,7 @@ func classString(feats []string, a []B) string {
 			set[x] = true
 		}
 		var out []string
-		for _, x := range []string{"arg-with-space", "empty-arg", "arg-with-crlf", "non-utf8-arg", "filtered-command"} {
+		for _, x := range []string{"arg-with-space", "empty-arg", "arg-with-crlf", "non-utf8-arg", "filtered-command", "after-select"} {
 			if set[x] {
 				out = append(out, x)
 			}
@@ -100,6 +100,7 @@ var c14ReadOnly = map[string]bool{"get": true, "strlen": true, "mget": true, "ex
 func taintedClasses(cmds []Cmd) []string {
 	taint := map[string]map[string]bool{}
 	out := make([]string, len(cmds))
+	selected := false // a SELECT was issued: which keyspace a command meets depends on it
 	for i, c := range cmds {
 		a := c.Args
 		if len(a) == 0 {
@@ -108,6 +109,12 @@ func taintedClasses(cmds []Cmd) []string {
 		}
 		name := strings.ToLower(string(a[0]))
 		set := map[string]bool{}
+		if name == "select" {
+			selected = true
+		}
+		if selected {
+			set["after-select"] = true
+		}
 		for _, f := range argFeatures(a) {
 			set[f] = true
 		}
@@ -550,6 +557,9 @@ func programClass(sc *Scenario) string {
 	set := map[string]bool{}
 	for _, c := range sc.Clients {
 		for _, cmd := range c.Cmds {
+			if len(cmd.Args) > 0 && strings.EqualFold(string(cmd.Args[0]), "select") {
+				set["after-select"] = true
+			}
 			cl := argClass(cmd.Args)
 			if strings.HasPrefix(cl, "plain:") || strings.HasPrefix(cl, "mixed-case:") {
 				continue
@@ -563,11 +573,10 @@ func programClass(sc *Scenario) string {
 	for f := range set {
 		fs = append(fs, f)
 	}
-	sort.Strings(fs)
 	if len(fs) == 0 {
 		return "plain-program"
 	}
-	return strings.Join(fs, "+")
+	return classString(fs, nil)
 }
 
 // canonReply renders a reply for the trace; replies whose element order is the
